@@ -17,7 +17,7 @@ import random
 import re
 
 import glom
-from glom.core import bbrepr, TRACE_WIDTH
+from glom.core import bbrepr, TRACE_WIDTH, GlomError
 
 import frames
 import vlib
@@ -256,11 +256,13 @@ def check_case(st, widths=False):
                 return 'line %d shows %s, not a prefix of %s' % (i + 1, p[2], x[2]), case, None
     # last line: class and message of the original error
     nd = node_at(tree, res['org'])
-    cls = ERR_CLASS[nd['k']]
+    cls = ERR_CLASS[nd['k']] if res.get('rootglom', True) else 'AlienError'
+    if not isinstance(e, GlomError):
+        return 'the error raised by glom() is a bare %s, not a GlomError' % type(e).__name__, case, None
     last = lines[-1]
     if cls not in last:
         return 'message ends with %r, expected the %s that was raised' % (last, cls), case, None
-    if cls == 'PlantedError' and not last.endswith('planted %d' % res['rootn']):
+    if cls in ('PlantedError', 'AlienError') and not last.endswith('planted %d' % res['rootn']):
         return 'message ends with %r, expected planted %d' % (last, res['rootn']), case, None
     if cls == 'PathAccessError' and 'nope' not in last:
         return 'message ends with %r, which does not describe the failing access' % (last,), case, None
@@ -331,7 +333,7 @@ def record(check, n, seed):
     while len(rows) < n and tries < 50 * n:
         tries += 1
         tree = rand_tree(rng, rng.randint(2, 4))
-        plan = [rng.choice(['ok', 'ok', 'err']) for _ in range(rng.randint(0, 8))]
+        plan = [rng.choice(['ok', 'ok', 'ok', 'err', 'err', 'alien']) for _ in range(rng.randint(0, 8))]
         obs = frames.execute(tree, plan)
         if obs['out'] != 'err':
             continue
@@ -390,7 +392,7 @@ def collect(tree, spec, path, index):
 def run_mutants(check):
     rejected = []
     for m in ('nowalk', 'noforgive', 'lazydup'):
-        res = vlib.run_tlc('MC_C05', cfg='MC_C05_' + m, constants=dict(MaxDepth=2, SecondDepth=0, MaxLeaves=4, Rich='TRUE'))
+        res = vlib.run_tlc('MC_C05', cfg='MC_C05_' + m, constants=dict(MaxDepth=2, SecondDepth=0, MaxLeaves=4, Rich='TRUE', Alien='FALSE'))
         if not res['violated']:
             raise vlib.MachineryError('mechanism mutant %s not rejected by the C05 laws' % m)
         rejected.append('%s -> %s' % (m, res['violated']))
@@ -399,9 +401,11 @@ def run_mutants(check):
 
 def main(tier, seed):
     check = vlib.Check(PROP, tier, seed)
-    runs = {'quick': [dict(MaxDepth=2, SecondDepth=0, MaxLeaves=4, Rich='TRUE')],
-            'thorough': [dict(MaxDepth=2, SecondDepth=0, MaxLeaves=5, Rich='TRUE'),
-                         dict(MaxDepth=2, SecondDepth=1, MaxLeaves=4, Rich='FALSE')]}[tier]
+    runs = {'quick': [dict(MaxDepth=2, SecondDepth=0, MaxLeaves=4, Rich='TRUE', Alien='FALSE'),
+                      dict(MaxDepth=2, SecondDepth=0, MaxLeaves=4, Rich='FALSE', Alien='TRUE')],
+            'thorough': [dict(MaxDepth=2, SecondDepth=0, MaxLeaves=5, Rich='TRUE', Alien='FALSE'),
+                         dict(MaxDepth=2, SecondDepth=0, MaxLeaves=4, Rich='TRUE', Alien='TRUE'),
+                         dict(MaxDepth=2, SecondDepth=1, MaxLeaves=4, Rich='FALSE', Alien='FALSE')]}[tier]
     results = []
     for consts in runs:
         res, rs = vlib.map_states('MC_C05', worker, constants=consts)
